@@ -428,9 +428,9 @@ fn budgets(rep: &Reporter, n_runs: usize) {
 fn main() {
     let rep = Reporter::from_args("C06");
     rep.fold_aux();
-    rep.rule("every PopulationEvaluator child observed through the step-observer hook (snapshot of the whole population stack, evaluation counter and objective call log before/after) in (1) runs of all 21 templates over the parameter catalogue with sequential and parallel evaluators in rayon pools of 1/2/4/16 threads with perturbed objective latency, (2) generated configurations mixing evaluation steps under identifiers Global/A/B (sequential or parallel, some deliberately not registered), population sizes 0..64, steps inside scopes, loops and branches, (3) evaluation-budget runs; per step: same individuals, order and solutions, all evaluated with f_pure, each solution evaluated exactly once (multiset of the call log), counter delta = population size = call delta; per run: reported evaluations = objective calls; missing identifier => error before anything executes. distinct_nontrivial = distinct runs / configurations");
+    rep.rule("every PopulationEvaluator child observed through the step-observer hook (snapshot of the whole population stack, evaluation counter and objective call log before/after) in (1) runs of all 21 templates over the parameter catalogue with sequential and parallel evaluators in rayon pools of 1/2/3/4/7/16 threads with perturbed objective latency, (2) generated configurations mixing evaluation steps under identifiers Global/A/B (sequential or parallel, some deliberately not registered), population sizes 0..64, steps inside scopes, loops and branches, (3) evaluation-budget runs; per step: same individuals, order and solutions, all evaluated with f_pure, each solution evaluated exactly once (multiset of the call log), counter delta = population size = call delta; per run: reported evaluations = objective calls; missing identifier => error before anything executes. distinct_nontrivial = distinct runs / configurations");
     rep.assume("objective call log of the harness problems is complete and pure; completion order diversity is what the latency perturbation produced (reported, not exhaustive)");
-    let pools: Vec<rayon::ThreadPool> = [1usize, 2, 4, 16].iter().map(|&n| rayon::ThreadPoolBuilder::new().num_threads(n).build().unwrap()).collect();
+    let pools: Vec<rayon::ThreadPool> = [1usize, 2, 3, 4, 7, 16].iter().map(|&n| rayon::ThreadPoolBuilder::new().num_threads(n).build().unwrap()).collect();
     let seeds = rep.tier.pick(8usize, 40usize);
     let cases = templates::cases(rep.quick(), rep.seed, seeds);
     let n = cases.len();
